@@ -384,6 +384,7 @@ func allSeeds(r *rand.Rand, repo string) []seed {
 	s = append(s, fileSeeds(repo)...)
 	s = append(s, structuredSeeds(r)...)
 	s = append(s, testLiteralSeeds(repo)...)
+	s = append(s, witnessSeeds(repo)...)
 	return s
 }
 
